@@ -584,6 +584,10 @@ func checkEvaluatorPipeline(r *Run, prog *Program, a *Anchors, pfx string) {
 	for _, sm := range psE.Run(a.EvaluateM) {
 		for _, ev := range sm.callsTo(a.Dispatch) {
 			npaths++
+			if len(ev.Args) < 3 || len(ev.Deref) < 3 {
+				r.Fail("unresolved-anchor", pfx+".pipeline", "dispatcher-params", prog.pos(a.Dispatch.Pos()), "the dispatcher does not take (node, datum, options): the option list Evaluate re-issues cannot be identified")
+				continue
+			}
 			optArg, optDeref := ev.Args[2], ev.Deref[2]
 			if f, _ := calleeOfSym(optArg); f != nil && f == a.GetOpts {
 				// the dispatcher takes the option set: Evaluate folds its literal list first
